@@ -43,7 +43,7 @@ G1_EXTRA_WIDTHS = [32, 33]  # 1-bit rows whose byte count crosses the 4-byte BMP
 INLINE_SIGMA = [b"E", b"I", b" ", b"\n", b"\r", b"\x00", b"x", b"\xff"]
 
 BOUNDS = {
-    "quick": {"widths": WIDTHS, "heights": HEIGHTS, "inline_len": 3, "bufsizes": [1, 2, 3, 4, 5, 6, 7, 8], "align": "every boundary position inside 'ID <data>\\nEI\\n'", "dup_names": [2, 3, 4]},
+    "quick": {"widths": WIDTHS + [7, 16, 17], "heights": HEIGHTS + [4], "inline_len": 4, "bufsizes": [1, 2, 3, 4, 5, 6, 7, 8, 9], "align": "every boundary position inside 'ID <data>\\nEI\\n'", "dup_names": [2, 3, 4, 5]},
     "thorough": {"widths": WIDTHS + [7, 16, 17, 31], "heights": HEIGHTS + [4], "inline_len": 5, "bufsizes": [1, 2, 3, 4, 5, 6, 7, 8, 9, 16], "align": "every boundary position inside 'ID <data>\\nEI\\n'", "dup_names": [2, 3, 4, 5, 6]},
 }
 
@@ -70,7 +70,8 @@ META = {
         "inline-streams: the program cut at operator boundaries into every 2- and 3-stream /Contents array (the image wholly inside one stream), "
         "3 payloads, BUFSIZ {4096, 1, 5}, also with the image's EI as the very last bytes of a non-last stream (the next stream starts with Q); "
         "inline-nosep: every admissible string of length 1..3 over the same alphabet, not ending in CR/LF, with EI directly after the last data "
-        "byte (no separator), BUFSIZ {4096, 1, 3}; inline-variants: full key names, LF after ID, EI as the last bytes of the stream, '~>EI' without white-space. "
+        "byte (no separator), BUFSIZ {4096, 1, 3}; inline-variants: full key names, LF after ID, EI as the last bytes of the stream, '~>EI' without white-space, and the single white-space character after ID over all six {NUL, TAB, LF, FF, CR, SP} x data starting with {LF, CR, SP, NUL, TAB, FF, x, E} (2- and 3-byte data; ID CR + data LF.. is a separator plus a data byte), BUFSIZ {4096, 3, 1}; "
+        "nameseq: every paint order of 1..4 (thorough 5) images over the names {Im0, Im0.0, Im0.1, Im0.0.0} (each other's uniquified forms), on one page and one page per painting: one file per painting, contents a bijection. "
         "A case = one image (or one inline program run); non-trivial = at least one pixel / data byte / following glyph was compared. "
         "states = generated documents and programs, transitions = individual observations compared with the model (one exported file, "
         "one LTImage attribute set, one inline payload, one glyph list), traces = cases whose every observation was compared."
@@ -772,6 +773,8 @@ def judge_inline(obs, ref_chars, data: bytes, w: int, h: int, colour: str, decod
 # shards
 # ----------------------------------------------------------------------------------------------
 # ---- inline image inside one stream of a /Contents array (the image itself is never split)
+NAMESEQ_POOL = ["Im0", "Im0.0", "Im0.1", "Im0.0.0"]
+NAMESEQ_LEN = {"quick": 4, "thorough": 5}
 STREAM_DATA = [b"ab", b"E I\x00\xff", b"\n\xff\n"]
 
 
@@ -805,6 +808,8 @@ def shards(tier):
     out.append(("inline-a85-ei",))
     for n in b["dup_names"]:
         out.append(("names", n))
+    for first in range(len(NAMESEQ_POOL)):
+        out.append(("nameseq", first))
     for first in range(5):
         out.append(("calls", first))
     for i in range(len(INLINE_SIGMA)):
@@ -1005,6 +1010,31 @@ def run_shard(shard, tier, st):
             _record(st, viols, {"family": fam, "pdf": pdf, "images": images})
         if n == 3:
             st.sample({"family": fam, "pages": n, "names": [im["name"] for im in images]})
+    elif fam == "nameseq":
+        # every paint order of up to NAMESEQ_LEN[tier] images over names that are each other's uniquified forms: whatever
+        # was exported before, a later export never lands on a file that is already there
+        colour, w, h = "G8", 4, 2
+        xo, smp = {}, {}
+        for k, nm in enumerate(NAMESEQ_POOL):
+            smp[nm] = make_samples(colour, w, h, "ramp", salt=40 + k)
+            f2, p2, e2 = encode_chain("Fl", smp[nm], colour, w)
+            xo[nm] = image_xobject(colour, w, h, f2, p2, e2)
+        for L in range(1, NAMESEQ_LEN[tier] + 1):
+            for tail in itertools.product(NAMESEQ_POOL, repeat=L - 1):
+                seq = (NAMESEQ_POOL[shard[1]],) + tail
+                images = [{"name": nm, "colour": colour, "w": w, "h": h, "samples": smp[nm], "ext": ".bmp"} for nm in seq]
+                for split in ((False, True) if L > 1 else (False,)):
+                    # one page, or one page per painting (same writer, later pages)
+                    pages = [(do_ops([nm]), {nm: xo[nm]}) for nm in seq] if split else [(do_ops(seq), {nm: xo[nm] for nm in set(seq)})]
+                    pdf = doc_with_pages(pages)
+                    viols, outcome, ncmp = judge_names_doc(pdf, images)
+                    st.states += 1
+                    st.transitions += ncmp
+                    st.traces += 1
+                    st.case(None, nontrivial=L > 1, outcome=outcome, n=len(images))
+                    _record(st, viols, {"family": "names", "pdf": pdf, "images": images})
+        if shard[1] == 0:
+            st.sample({"family": fam, "last_sequence": list(seq)})
     elif fam == "calls":
         pool = call_pool()
         first = shard[1]
@@ -1198,20 +1228,28 @@ def run_shard(shard, tier, st):
             (":A85-as-second-filter-name-array", inline_program(a85, 3, 1, filt=[N("A85")]), a85, data, ref),
             (":two-inline-images", None, data, None, ref),
         ]
+        # the single white-space character after ID (ISO 32000-1 8.9.7) ranges over all six; the data may itself start with
+        # white space -- in particular ID CR followed by data that starts with LF is a separator plus a data byte
+        for sep in (b"\x00", b"\t", b"\n", b"\x0c", b"\r", b" "):
+            for first in (b"\n", b"\r", b" ", b"\x00", b"\t", b"\x0c", b"x", b"E"):
+                for rest in (b"\x80", b"\n\x80"):
+                    d2 = first + rest
+                    variants.append((":ID-sep-%s-data-starts-%s" % (sep.hex(), first.hex()), inline_program(d2, len(d2), 1, id_sep=sep), d2, None, ref))
         for ctx, prog, raw, decoded, r in variants:
             if prog is None:
                 continue
-            for bs in (4096, 3):
+            for bs in (4096, 3, 1):
                 try:
                     obs = rig.run(prog, bs)
                 except Exception as e:  # noqa
                     obs = e
-                viols, outcome = judge_inline(obs, r, raw, 3, 1, "G8", decoded=decoded, context=ctx)
+                wv = 3 if decoded is not None else len(raw)
+                viols, outcome = judge_inline(obs, r, raw, wv, 1, "G8", decoded=decoded, context=ctx)
                 st.states += 1
                 st.transitions += 2
                 st.traces += 1
                 st.case(None, nontrivial=True, outcome=outcome + (ctx,))
-                _record(st, viols, {"family": "inline", "program": prog, "bufsiz": bs, "data": raw, "w": 3, "h": 1, "colour": "G8", "decoded": decoded, "full_doc": False, "context": ctx, "nopost": r is ref_nopost})
+                _record(st, viols, {"family": "inline", "program": prog, "bufsiz": bs, "data": raw, "w": wv, "h": 1, "colour": "G8", "decoded": decoded, "full_doc": False, "context": ctx, "nopost": r is ref_nopost})
         # two inline images in one stream, with text between: both delivered, in order
         p1 = inline_program(b"ab", 2, 1, post=b"")
         p2 = inline_program(b"\x00\xffE", 3, 1)
